@@ -28,8 +28,60 @@ KIND = {"q": "qDOF", "q_dot": "qDOF", "u": "uDOF", "u_dot": "uDOF", "la_c": "la_
         "P_gamma": "la_gammaDOF", "la_N": "la_NDOF", "P_N": "la_NDOF", "la_F": "la_FDOF", "P_F": "la_FDOF"}
 
 
+def merge_is_concatenation(ctx, rule="C29.R11"):
+    """export() methods return their data either as lists of rows or as ndarrays (Sphere2Plane's P_F, the rods' RationalWeights, ...).  The
+    helper that merges the members of a list export has to append rows in both cases.  `a += b` / `a + b` appends for lists and ADDS
+    element-wise for arrays (and mutates the first member's array in place), so on an entry whose representation is not established by an
+    isinstance(list) guard it is a violation."""
+    from ..model import guards_of
+    rep = ctx.rep
+    VT = "cardillo/visualization/vtk_export.py"
+    cls = ctx.repo.get(VT, "Export")
+    helpers = [f for f in cls.body if isinstance(f, ast.FunctionDef) and f.name.endswith("add_key")]
+    if not helpers:
+        # the merge may be inlined into the list export
+        helpers = [f for f in cls.body if isinstance(f, ast.FunctionDef) and f.name.endswith("export_list")]
+    if not helpers:
+        rep.ok(rule, f"{VT}:Export", "merge routine of list exports not found (no verdict)", verdict="unknown", trivial=True)
+        return
+    for fn in helpers:
+        C = f"{VT}:Export.{fn.name}"
+        params = {a.arg for a in fn.args.args}
+        n_ok = 0
+        bad = False
+
+        def is_entry(e):
+            return isinstance(e, ast.Subscript) and isinstance(e.value, ast.Name) and (e.value.id in params or e.value.id.endswith("_data"))
+        for w in ast.walk(fn):
+            site = None
+            if isinstance(w, ast.AugAssign) and isinstance(w.op, ast.Add) and is_entry(w.target):
+                site = w
+            elif isinstance(w, ast.Assign) and isinstance(w.value, ast.BinOp) and isinstance(w.value.op, ast.Add) and any(is_entry(t) for t in w.targets) \
+                    and (is_entry(w.value.left) or is_entry(w.value.right)):
+                site = w
+            if site is not None:
+                gs = guards_of(site, fn)
+                guarded = any(pol and t.replace(" ", "").startswith("isinstance(") and t.replace(" ", "").endswith(",list)") for (t, pol) in gs)
+                if guarded:
+                    n_ok += 1
+                else:
+                    bad = True
+                    rep.bad(rule, C, site, f"`{norm_src(site)[:70]}` merges an entry with `+`: for members that return this data as an ndarray (friction percussions, rational weights) the rows are "
+                            "added element-wise onto the first member's rows (and into its own array) instead of being appended, so the file holds fewer tuples than points and sums of "
+                            "several members' data", f"{VT}:{site.lineno}")
+            if isinstance(w, ast.Call) and ((isinstance(w.func, ast.Attribute) and w.func.attr == "extend") or (dotted(w.func) or "").split(".")[-1] in ("vstack", "concatenate", "append", "row_stack")):
+                n_ok += 1
+        if not bad:
+            if n_ok:
+                rep.ok(rule, C, f"{n_ok} row-appending merge operation(s); no unguarded `+` on an entry")
+            else:
+                rep.ok(rule, C, "no merge operation recognised (no verdict)", verdict="unknown", trivial=True)
+
+
 def run(ctx):
     rep = ctx.rep
+    rep.rule("C29.R11", "list exports merge the members' point / cell data by ROW CONCATENATION in both representations (list: extend, array: vstack / concatenate); `+` / `+=` on an entry is concatenation for lists only and needs an isinstance(list) guard", 1)
+    merge_is_concatenation(ctx)
     rep.rule("C29.R1", "one DataSet and one file per frame from the same file_i; collection written after the loop", 5)
     rep.rule("C29.R2", "global solution arrays are indexed with the matching global DOF set first", 25)
     rep.rule("C29.R3", "kinematic calls of an export use sol_i.t", 20)
@@ -751,4 +803,12 @@ NEUTRAL = [
     dict(id="c29-n2", what="Sphere2Plane.export: offset of the contact point hoisted into a local", file="cardillo/contacts/sphere2plane.py",
          edits=[("cardillo/contacts/sphere2plane.py", "        A_IB2 = self.frame.A_IB(sol_i.t)\n        point_data = dict(", "        A_IB2 = self.frame.A_IB(sol_i.t)\n        B_r_CC1 = self.B_r_CP + A_IB1.T @ r_PC1\n        point_data = dict("),
                 ("cardillo/contacts/sphere2plane.py", "                    self.B_r_CP + A_IB1.T @ r_PC1,", "                    B_r_CC1,")]),
+]
+
+MUTANTS += [
+    dict(id="c29-r11-seed", canary=True, what="[seeded by sub-agent] Export.__add_key 'simplified' to `data_write[key] += value` (adds ndarray data element-wise)", file='cardillo/visualization/vtk_export.py',
+         old='    def __add_key(self, data_read, data_write):\n        for key in data_read.keys():\n            if not key in data_write.keys():\n                data_write[key] = data_read[key]\n            else:\n                if isinstance(data_read[key], list):\n                    data_write[key].extend(data_read[key])\n                else:\n                    data_write[key] = np.vstack((data_write[key], data_read[key]))\n\n', new='    def __add_key(self, data_read, data_write):\n        for key, value in data_read.items():\n            if key in data_write:\n                data_write[key] += value\n            else:\n                data_write[key] = value\n\n', expect="C29.R11"),
+]
+NEUTRAL += [
+    dict(id="c29-n-r11", canary=True, what="Export.__add_key rewritten over items() with the same list / array distinction", file='cardillo/visualization/vtk_export.py', old='    def __add_key(self, data_read, data_write):\n        for key in data_read.keys():\n            if not key in data_write.keys():\n                data_write[key] = data_read[key]\n            else:\n                if isinstance(data_read[key], list):\n                    data_write[key].extend(data_read[key])\n                else:\n                    data_write[key] = np.vstack((data_write[key], data_read[key]))\n\n', new='    def __add_key(self, data_read, data_write):\n        for key, value in data_read.items():\n            if key not in data_write:\n                data_write[key] = value\n            elif isinstance(value, list):\n                data_write[key].extend(value)\n            else:\n                data_write[key] = np.vstack((data_write[key], value))\n\n'),
 ]
